@@ -42,11 +42,11 @@ def gen_cmdline(r, tmpdir, idx):
         # flag interactions on programs that run long enough for the run mode to show: a budget, and each of
         # static / back end / width / level with probability 1/2, in random order
         prog = r.choice(["-[>.+<-]", "+[.+]", "++++++++[>++++++++<-]>[.-]", ",[.-]", "+[>+.<]"])
-        fl = [["--limit", r.choice(["1", "3", "20", "100", "1000"])]]
+        fl = [["--limit", r.choice(["0", "1", "3", "20", "100", "1000"])]]
         for group in (["--static"], ["--inplace", "--ir-int", "--bc-int", "--base-jit"], ["-i8", "-i16", "-i32", "-i64"], ["-O0", "-O1", "-O2", "-O3"], ["--static"], ["--limit"]):
             if r.below(2) == 0:
                 g = r.choice(group)
-                fl.append([g, r.choice(["2", "50", "400"])] if g == "--limit" else [g])
+                fl.append([g, r.choice(["0", "2", "50", "400"])] if g == "--limit" else [g])
         fl.append([prog])
         order = []
         while fl:
